@@ -126,7 +126,7 @@ PROPS = {
         "assumptions": ["the per-level solve is a parameter of the priority theorems: they hold for whatever solve_inner computes"],
     },
     "C14": {
-        "modules": ["Ezpz.Properties.C14"],
+        "modules": ["Ezpz.Properties.C14", "Ezpz.Real.Tolerance"],
         "suites": [
             {"suite": "trace", "quick": (400, "caps,prio,planted,contra"), "thorough": (6000, "caps,prio,planted,contra,linear,malformed")},
         ],
@@ -134,7 +134,7 @@ PROPS = {
             {"bin": "oracle_c14", "quick": ("{seed}", "300"), "thorough": ("{seed}", "6000")},
         ],
         "partial": ["solve_cap_monotone_partial: for several priority levels cap-monotonicity is proved under the hypothesis that no level fails with DidNotConverge under the smaller cap; without it the statement is false of the code (known finding F11)",
-                    "the 'tightening the tolerance yields errors <= tolerance' clause is a convergence claim about the f64 iteration: checked by the oracle on the real code only"],
+                    "the tolerance clause is proved over the reals for results returned at the residual test (converged_within_tolerance: every error component <= the configured tolerance); that the f64 iteration reaches the residual test for a given tighter tolerance is a convergence claim, checked by the oracle on the real code only"],
         "assumptions": ["the LU solve is a parameter indexed by (level, iteration): the theorems hold for every such family"],
     },
     "C01": {
